@@ -18,3 +18,18 @@ theorem c09_refused_updateBundle (h : Heap) (c o : Nat) (hd : (h.cont o).isDoc =
   simp [hd, this]
 
 end Prov.C09
+
+namespace Prov.C09
+open Prov Prov.Heap
+
+/-- `flattened()` of a document that has no bundles is the document itself: nothing is allocated, nothing copied -/
+theorem c09_flattened_without_bundles (h : Heap) (d : Nat) (hb : (h.cont d).bundles = []) :
+    h.flattened d = (h, .ok d) := by
+  unfold flattened
+  simp [hb]
+
+/-- `update` on a bundle (not a document) is `ProvBundle.update`; on a document it is `ProvDocument.update` -/
+theorem c09_update_dispatch (h : Heap) (c o : Nat) :
+    h.update c o = (if (h.cont c).isDoc then h.updateDoc c o else h.updateBundle c o) := rfl
+
+end Prov.C09
